@@ -16,6 +16,7 @@ from typing import MutableSequence
 from typing import TypeVar
 from typing import Union
 
+from jsonpath._data import json_equal
 from jsonpath._data import load_data
 from jsonpath.exceptions import JSONPatchError
 from jsonpath.exceptions import JSONPatchTestFailure
@@ -382,7 +383,7 @@ class OpTest(Op):
     ) -> Union[MutableSequence[object], MutableMapping[str, object]]:
         """Apply this patch operation to _data_."""
         _, obj = self.path.resolve_parent(data)
-        if not obj == self.value:
+        if not json_equal(obj, self.value):
             raise JSONPatchTestFailure
         return data
 
